@@ -303,3 +303,87 @@ def method_chain(e, origins, depth=0):
             return method_chain(origins[nm], origins, depth + 1)
         return nm, []
     return None, []
+
+
+def norm_expr(n):
+    """structure of an expression without positions / types, with locals by their base name: two occurrences of the same condition compare equal"""
+    if isinstance(n, list):
+        return '[' + ','.join(norm_expr(x) for x in n) + ']'
+    if not isinstance(n, dict):
+        return repr(n)
+    from .core import peel
+    n = peel(n)
+    k = n.get('k')
+    if k == 'path':
+        p = n.get('path') or ''
+        return 'L:' + p.split('#')[0] if n.get('res') == 'Local' else 'P:' + p
+    keys = [x for x in sorted(n) if x not in ('l', 't', 'x', 'm', 'adj', 'gargs', 'resolved', 'callee', 'res')]
+    return '{' + ','.join(f'{x}={norm_expr(n[x])}' for x in keys) + '}'
+
+
+def control_conditions(root, target):
+    """[(normalised condition, polarity)] of the if / else branches and guarded match arms that enclose `target` inside `root`"""
+    p = path_to(root, target)
+    out = []
+    if p is None:
+        return None
+    for node, key in p:
+        if node.get('k') == 'if' and key in ('then', 'else'):
+            c = node['cond']
+            out.append((norm_expr(c.get('init') if c.get('k') == 'letexpr' else c) + ('|' + norm_expr(c.get('pat')) if c.get('k') == 'letexpr' else ''), key == 'then'))
+        if 'guard' in node and key == 'body' and node.get('guard') is not None:
+            out.append((norm_expr(node['guard']), True))
+    return out
+
+
+def position_carry(facts):
+    """Transfer function of the closure that collects the tables to print in `Display for DocumentMut`, evaluated for a table with and without a
+    recorded position: returns (ok, detail).  Expected: the carried position becomes the table's own position when it has one and stays otherwise,
+    and the table is filed under that (updated) position — so a table without position prints right after the table visited before it."""
+    from .core import walk, peel
+    from .den import RecInterp, Evaluator, Unanalysable, Ret
+    d = facts.method('core::fmt::Display', 'toml_edit::document::DocumentMut', 'fmt')
+    b = facts.body(d)
+    clos = [n for n in walk(b['body']) if n.get('k') == 'closure' and len(n.get('params', [])) == 3 and
+            any(x.get('k') == 'mcall' and x.get('name') == 'push' for x in walk(n['body']))]
+    if len(clos) != 1:
+        return False, f'{len(clos)} collecting closures found (expected the one passed to visit_nested_tables)', b
+    clo = clos[0]
+    bound = {x['name'] for p in clo['params'] for x in walk(p) if x.get('k') == 'p_bind'} | {x['name'] for x in walk(clo['body']) if x.get('k') == 'p_bind'}
+    free = {}
+    for x in walk(clo['body']):
+        if x.get('k') == 'path' and x.get('res') == 'Local' and x.get('path') not in bound:
+            free[x['path']] = x.get('t') or ''
+    ints = [n for n, t in free.items() if t.strip() in ('usize', 'isize', 'u32', 'u64', 'i32', 'i64')]
+    if len(ints) != 1:
+        return False, f'carried position local not identified ({sorted(free)})', b
+    carried = ints[0]
+    SOME, NONE = 'core::option::Option::Some', 'core::option::Option::None'
+    rows = []
+    try:
+        for last in (0, 5):
+            for pos in (None, 3, 9):
+                it = RecInterp(Evaluator(facts), {'push', 'clone'})
+                env = {n: ('opaque',) for n in free}
+                env[carried] = last
+                env['@assign'] = {}
+                table = ('struct', 'Table', {'doc_position': ('ctor', NONE) if pos is None else ('ctor', SOME, (pos,)), 'position': ('ctor', NONE) if pos is None else ('ctor', SOME, (pos,))})
+                args = [table, ('path',), False]
+                for p_, a in zip(clo['params'], args):
+                    it.bind(p_, a, env)
+                try:
+                    it.val(clo['body'], env)
+                except Ret:
+                    pass
+                pushed = [a for nm, a in it.calls if nm == 'push']
+                key = pushed[0][0][0] if len(pushed) == 1 and pushed[0] and isinstance(pushed[0][0], tuple) and pushed[0][0] else None
+                want = last if pos is None else pos
+                rows.append(((last, pos), (env.get(carried), key), (want, want)))
+    except Unanalysable as e:
+        return False, f'cannot evaluate the collecting closure: {e}', b
+    bad = [r for r in rows if r[1] != r[2]]
+    if bad:
+        (last, pos), got, want = bad[0]
+        return False, (f'with carried position {last} and a table whose position is {pos}, the carried position becomes {got[0]} and the table is filed under {got[1]}; '
+                       f'expected {want[0]} / {want[1]}'), b
+    return True, 'carried = own position if any, else unchanged; the table is filed under the carried position', b
